@@ -30,8 +30,36 @@ def run(ctx):
                 out.append(c)
         return out
     std.m2(ctx, "c15", "Codec_Trace", "Codec_Trace.cfg", 4000 if ctx.quick else 100000, negs, evkeys=KEYS)
+    extras(ctx)
     ctx.assumptions += ["chunk/unchunk are observed on position-coded tensors (value = sequence id*100 + position)",
                         "complement maps are involutions; ASCII alphabets exclude 'N' (reserved for all-zero columns)"]
+
+
+def extras(ctx):
+    """Beyond the listed property (growth backlog): pwm_consensus / extract_signal / random_one_hot against UtilsExtra_Trace.
+    A rejected event is reported as EXTRA-FINDING (it is not a violation of C15 and does not change the exit status)."""
+    from .. import core
+    out = ctx.run_impl("x15", [dict(id=k, seed=ctx.seed * 31 + k, n=60 if ctx.quick else 1500) for k in range(4)], nproc=4)
+    events = []
+    for k in range(4):
+        if out[k].get("st") in ("crashed", "timeout"):
+            print("EXTRA-FINDING: utils extras driver %s" % out[k]["st"]); continue
+        events += out[k]["events"]
+    for i, e in enumerate(events):
+        e["id"] = i + 1
+    neg = None
+    for e in events:
+        if e["op"] == "signal" and e["st"] == "ok":
+            neg = copy.deepcopy(e); neg["id"] = -1; neg["y"][0][0] += 1
+            break
+    bad = ctx.validate_trace("UtilsExtra_Trace", "UtilsExtra_Trace.cfg", ([neg] if neg else []) + events, tag="-extras")
+    if neg:
+        ctx.cov["traces_validated_against_impl"] -= 1
+        ctx.negative_control("a wrong extracted signal must be rejected by UtilsExtra_Trace", any(b[0] == -1 for b in bad))
+    found = [(i, c) for (i, c) in bad if i > 0]
+    for (i, c) in found[:5]:
+        print("EXTRA-FINDING: (not part of C15) %s: %s" % (events[i - 1]["op"], c), flush=True)
+    ctx.lane("extras", events=len(events), rejected=len(found), functions=["pwm_consensus", "extract_signal", "random_one_hot"])
 
 
 def replay(ctx, v):
